@@ -329,6 +329,9 @@ func TestVFC10OfferWhenFree(t *testing.T) {
 				name = names[i+1]
 			}
 			out := w.do(vfC10Op{Kind: "static_add", MAC: resMACs[i], IP: ip, Host: name})
+			if out == "excluded" {
+				continue
+			}
 			if out != "accepted" {
 				t.Fatalf("reservation %s -> %s on an empty table: %s", resMACs[i], ip, out)
 			}
